@@ -19,7 +19,7 @@ spec = json.load(open(sys.argv[1]))
 import ceos_alos2
 from harness import project
 out = []
-for item in spec["items"]:
+def work(item):
     d, form = item["dir"], item["form"]
     try:
         if form == "str":
@@ -55,9 +55,40 @@ for item in spec["items"]:
                 odd += [f"{node.path}/{name}@{k}: {type(v).__name__}" for k, v in var.attrs.items() if not plain(v)]
                 if not isinstance(var.dtype, np.dtype) or var.dtype.kind not in "biufcMmU":
                     odd.append(f"{node.path}/{name}: dtype {var.dtype!r}")
-        out.append({"ok": True, "fp": fp, "odd": odd})
+        loads = {}
+        for node in tree["imagery"].children:
+            da = tree[f"imagery/{node}/data"]
+            n_ = da.shape[0]
+            loads[node] = [da.isel(rows=s_).values.tobytes().hex() for s_ in (slice(None), slice(1, n_), slice(0, n_, 2), slice(None, None, -1), [0, n_ - 1])]
+        return {"ok": True, "fp": fp, "odd": odd, "loads": loads}
     except BaseException as e:
-        out.append({"ok": False, "err": f"{type(e).__name__}: {str(e)[:200]}"})
+        return {"ok": False, "err": f"{type(e).__name__}: {str(e)[:200]}"}
+def deep(k, item):
+    return work(item) if k == 0 else deep(k - 1, item)
+ctx = spec.get("ctx", "plain")
+for item in spec["items"]:
+    if ctx == "asyncio":      # the caller is inside a running event loop (a notebook cell, an async request handler)
+        import asyncio
+        async def main():
+            return work(item)
+        out.append(asyncio.run(main()))
+    elif ctx == "deep-stack":  # the caller is already 600 frames deep in its own code
+        out.append(deep(600, item))
+    elif ctx == "thread":      # the caller is a worker thread, not the main thread
+        import threading
+        box = []
+        t = threading.Thread(target=lambda: box.append(work(item))); t.start(); t.join()
+        out.append(box[0])
+    elif ctx == "decimal-prec-6":  # the application lowered the precision of its (thread-local) decimal context
+        import decimal
+        decimal.getcontext().prec = 6
+        out.append(work(item))
+    elif ctx == "numpy-errors-raise":  # the application turned NumPy floating-point warnings into errors
+        import numpy
+        numpy.seterr(all="raise")
+        out.append(work(item))
+    else:
+        out.append(work(item))
 json.dump(out, open(sys.argv[2], "w"))
 """
 
@@ -65,9 +96,9 @@ INTERPRETERS = {"python": [], "python -O": ["-O"], "python -OO": ["-OO"], "pytho
 FORMS = ["Path", "relative", "relative-dot", "slash", "url", "storage_options"]
 
 
-def _child(flags, items, base, tag):
+def _child(flags, items, base, tag, ctx="plain"):
     spec, out = os.path.join(base, f"spec_{tag}.json"), os.path.join(base, f"out_{tag}.json")
-    json.dump({"items": items}, open(spec, "w"))
+    json.dump({"items": items, "ctx": ctx}, open(spec, "w"))
     env = checklib.worker_env(os.path.join(base, f"xdg_{tag}"))
     env.pop("PYTHONOPTIMIZE", None)
     p = subprocess.run([sys.executable, "-W", "ignore"] + flags + ["-c", CHILD, spec, out], env=env, stdout=subprocess.PIPE, stderr=subprocess.STDOUT, text=True)
@@ -90,6 +121,10 @@ def task(t):
     if t["kind"] == "interpreter":
         items = [{"dir": d, "form": "str"} for d in prods]
         got, err = _child(INTERPRETERS[t["what"]], items, base, "v")
+    elif t["kind"] == "context":
+        items = [{"dir": d, "form": "str", "rpc": 1} for d in prods]
+        ref, err = _child([], items, base, "ref1")
+        got, err = _child([], items, base, "v", ctx=t["what"])
     else:
         items = [{"dir": d, "form": t["what"]} for d in prods]
         got, err = _child([], items, base, "v")
@@ -102,6 +137,8 @@ def task(t):
             continue
         for o in r1.get("odd", [])[:3]:
             out["bad"].append(("types", f"{t['what']}: not a plain attribute / numpy dtype: {o}"))
+        if r0.get("loads") != r1.get("loads"):
+            out["bad"].append(("load_values", f"{t['what']}: selections loaded from the tree differ from those a plain interpreter loads"))
         for cat, msgs in session.categorise(r0["fp"], r1["fp"]).items():
             out["bad"].append((cat, f"{t['what']}: the tree differs from the one a plain interpreter returns for the string path: {msgs[0]}"))
     return out
@@ -117,6 +154,7 @@ def run(chk, owners):
     L.instances([dict(file="image", kind="signal", n=3, ndata=16, bps=8), dict(file="image", kind="signal", n=4, ndata=8, bps=8)])
     tasks = [dict(kind="interpreter", what=w, seed=chk.seed + 7 * i) for i, w in enumerate(INTERPRETERS) if w != "python"]
     tasks += [dict(kind="path", what=w, seed=chk.seed + 100 + 7 * i) for i, w in enumerate(FORMS)]
+    tasks += [dict(kind="context", what=w, seed=chk.seed + 200 + 7 * i) for i, w in enumerate(("asyncio", "deep-stack", "thread", "decimal-prec-6", "numpy-errors-raise"))]
     others = {}
     for res in checklib.pmap(task, tasks, chk.scratch, procs=len(tasks)):
         chk.count(2, f"env:{res['task']['what']}")
@@ -127,6 +165,7 @@ def run(chk, owners):
                 others[cat] = others.get(cat, 0) + 1
     chk.traces(len(tasks))
     chk.rule_extra.append("process settings: the same two products opened by fresh interpreters (plain, -O, -OO, -X dev) and with 6 spellings of the path argument "
-                          "(Path object, relative, ./relative, trailing slash, file:// URL, storage_options), complete trees compared with the plain one")
+                          "(Path object, relative, ./relative, trailing slash, file:// URL, storage_options) and from 3 calling contexts (inside a running asyncio "
+                          "event loop, 600 frames deep, a worker thread, decimal precision 6, NumPy errors raised; records_per_chunk=1), complete trees and five selections per image compared with the plain one")
     if others:
         chk.note(f"process-setting differences of classes owned by other properties: {others}")
